@@ -67,3 +67,12 @@ Definition root_from_paths_p (H : bytes -> bytes) (v : version) (index : N) (lea
 Definition validate_sig_p (ed_verify : bytes -> bytes -> bytes -> bool) (ed_point : bytes -> bool)
            (pk sig data : bytes) : res bool :=
   validate_sig ed_verify ed_point pk sig data.
+
+(* a `for` loop that only updates outer variables: a fold, in the outcome monad *)
+Fixpoint fold_res {S A} (f : S -> A -> res S) (l : list A) (s : S) : res S :=
+  match l with
+  | [] => Ok s
+  | x :: r => obind (f s x) (fun s' => fold_res f r s')
+  end.
+
+Definition node_len_n (v : version) : N := N.of_nat (node_len v).
